@@ -670,6 +670,7 @@ class SimProcess:
         self.death_info = None
         self.target_done = False
         self.pending_signals = []
+        self.sig_handlers = {}
 
     def __deepcopy__(self, memo):
         return self
@@ -779,6 +780,7 @@ class ParentProc:
         self.n_flushed = 0
         self.faults = []
         self.task = None
+        self.sig_handlers = {}
 
     def fault_withholds(self, task):
         return False
@@ -857,8 +859,9 @@ class SimWorld:
         for ft in self.faults:
             if ft.victim == proc.ordinal:
                 proc.faults.append(ft)
-        # fork: the child inherits every pipe end its parent has open
+        # fork: the child inherits the signal dispositions and every pipe end its parent has open
         me = self.current_proc()
+        proc.sig_handlers = dict(getattr(me, "sig_handlers", {}))
         for c in self.connections:
             if me in c.holders:
                 c.holders.add(proc)
@@ -1025,9 +1028,23 @@ class SimWorld:
     def _deliver_signal(self, act):
         p = act.target
         sig = p.pending_signals.pop(0)
-        self.kill_proc(p, -sig, "api")
         self.note_probe("signal_delivered_by_api")
-        return "deliver signal %d to %s" % (sig, p.label)
+        return self.signal_proc(p, sig, "api")
+
+    def signal_proc(self, p, sig, why):
+        """a signal reaches process p: default action (death), ignored, or a Python handler that runs
+        in p's main thread (SIGKILL cannot be caught)"""
+        h = p.sig_handlers.get(sig) if sig != 9 else None
+        if h is None or h == "default":
+            self.kill_proc(p, -sig, why)
+            return "deliver signal %d to %s" % (sig, p.label)
+        if h == "ignore":
+            return "signal %d ignored by %s" % (sig, p.label)
+        if p.task.state == "done":
+            return "signal %d to finished %s" % (sig, p.label)
+        p.task.sig_pending.append((sig, h))
+        self.note_probe("signal_handled_by_python_handler")
+        return "signal %d queued for the handler of %s" % (sig, p.label)
 
     # ---- end of program: what the interpreter does for multiprocessing at exit
     def parent_atexit(self):
@@ -1116,6 +1133,14 @@ class KillFault:
 
     def fire(self, world, proc):
         self.fired = True
+        if self.code < 0 and self.code != -9 and callable(proc.sig_handlers.get(-self.code)):
+            # the system's signal meets a handler the code under test installed (inherited through fork)
+            world.signal_proc(proc, -self.code, "fault")
+            info = {"how": "fault-handled", "code": self.code, "lock_leaked": False, "torn_frame": False, "delivered_all": False, "lost_items": 0}
+            info.update(self.to_json())
+            info["siblings_alive"] = sum(1 for p in world.procs if p is not proc and not p.dead)
+            world.fault_log.append(info)
+            return "signal %d to %s handled by its python handler" % (-self.code, proc.label)
         world.kill_proc(proc, self.code, "fault")
         info = dict(proc.death_info)
         info["siblings_alive"] = sum(1 for p in world.procs if p is not proc and not p.dead)
